@@ -2,12 +2,18 @@
 from pyvc.sorts import *
 from pyvc import scan
 from specs.common import *
-from specs import startup, event_entry, lifecycle
+from specs import startup, event_entry, lifecycle, simulate
 
 
 def build(run):
     startup.verify_startup(run)
     lifecycle.verify_init_async(run)
+    lifecycle.verify_api(run)
+    lifecycle.verify_run_forever(run)      # order of the start-up steps; invariant J at its suspension points
+    simulate.verify_simulate(run)          # invariant J at the idle point: every block has an output
+    lifecycle.lifecycle_scans(run)
+    for ob in ('Circuit.wait_init/post:the_simulation_is_running', 'Circuit.wait_init/post:every_block_has_an_output'):
+        run.replayer(ob, lambda run_, ob_, model: open('/verif/specs/replay_c05.py').read())
     event_entry.verify_event(run)          # the early-initialisation clause of SBlock.event
     # ---- lemmas: the progress automaton 0 -> -1 -> 1 -> -2 -> 2 gives "each routine at most once" -------------------------------------
     s, full = Int('s'), Const('full', BoolSort())
@@ -25,5 +31,8 @@ def build(run):
     run.scan('async_init_runs_once', callers == ['edzed/simulator.py:Circuit.run_forever'], f'{callers}')
     run.unclaim("'whether start-up succeeds does not depend on the order in which the blocks were created': every obligation here holds for an "
                 "arbitrary iteration order of the block set, but order-independence of success is a confluence statement about whole start-ups")
-    run.unclaim('_init_sblocks_async / _run_tasks / wait_init / the start-up segment of run_forever (coroutines): see C08 for their status')
     run.assume('initialisation routines are user/library code behind an interface contract; A-C02')
+    run.assume('A-cancel: only Circuit.abort cancels the simulation task (scan), from outside it is cancelled at most while no error is recorded; '
+               'A-caller: the task awaiting wait_init() is not cancelled meanwhile; A-undef-eq: no user value compares equal to UNDEF')
+    run.trust('asyncio: a coroutine awaited directly runs without suspension up to its first real suspension point; Event.wait() returns only '
+              'after set(); wait(FIRST_COMPLETED) returns when one task is finished; wait_for cancels and awaits the task on timeout/cancellation')
